@@ -1,7 +1,9 @@
 // C03 harness: address claiming of the REAL tNMEA2000 on a simulated bus.
 // Level 1 (one library instance, node 0, frames handed to ParseMessages directly):
 //   reset <t32|t64> <mode> <now> <src:namehex>...      a freshly constructed instance (not open yet)
-//   claim <src> <namehex> | rxc <idhex> <len> <hexdata> | cmdaddr <namehex> <newaddr> <dst> | t <ms> | poll | restart
+//   claim <src> <namehex> | rxc <idhex> <len> <hexdata> (any raw frame, e.g. an unfinished fast-packet first frame that
+//   occupies a receive slot) | cmdaddr <namehex> <newaddr> <dst> | send <dev> <prio> <pgn> <presetsrc> <dst> <len> <hex>
+//   (application SendMsg) | t <ms> | poll | restart
 // Level 2 (whole bus: library instances + reference ISO 11783-5 nodes, atomic broadcast, inboxes):
 //   bus <t32|t64> <now> <L<mode>:<src>:<namehex>[,<src>:<namehex>...] | F<selfcfg>:<pref>:<namehex>>...
 //   d <i> (node i processes the head of its inbox) | p <i> (poll/start) | cmd <i> <dst> <namehex> <addr> | rs <i> | t <ms> | q
@@ -110,11 +112,52 @@ static void broadcast(size_t from, const std::vector<Frame> &fs) {
 }
 
 // what the op did to a library instance, for the oracle
-enum OpKind { OP_POLL, OP_CLAIM, OP_RAW, OP_CMD, OP_RESTART };
-struct Stim { OpKind k = OP_POLL; bool isClaim = false; uint64_t nm = 0; unsigned a = 0; unsigned dst = 255; };
+enum OpKind { OP_POLL, OP_CLAIM, OP_RAW, OP_CMD, OP_RESTART, OP_SEND };
+struct Stim { OpKind k = OP_POLL; bool isClaim = false; uint64_t nm = 0; unsigned a = 0; unsigned dst = 255;
+  std::string slotClass;                         // "", ":rx-slots-stale", ":rx-slots-busy" (input class of the receive path, see SlotBook)
+  int sdev = 0; tN2kMsg *msg = nullptr;          // OP_SEND: the application's message
+  bool ret = false; std::vector<Frame> all; };   // out: SendMsg result, every frame sent during the op in order
+
+// Receive-slot bookkeeping of node 0 (level 1), from the documented policy only: MaxN2kCANMsgs = 5 messages can be under
+// reassembly; a new message needs a slot; when none is free the oldest unfinished one is given up if it is at least
+// Max_N2kMsgBuf_Time = 100 ms old. Times are the harness' 64-bit clock (no wrap). Used to name the input class of a claim:
+//   ""                 a slot is free
+//   ":rx-slots-stale"  all slots taken, the oldest unfinished message is >= 100 ms old: it must make room
+//   ":rx-slots-busy"   all slots taken by unfinished messages younger than 100 ms: the library's documented capacity is exceeded,
+//                      the frame may be dropped. Outside the property's quantifier (claimants only) and outside the hypothesis
+//                      of C03_claim_not_lost: such steps are generated and compared with the model but NOT judged by the oracle.
+struct SlotBook {
+  struct E { unsigned long pgn; unsigned src; uint64_t t; unsigned len, got; unsigned char last; };
+  std::vector<E> a;
+  void clear() { a.clear(); }
+  int find(unsigned long pgn, unsigned src) { for (size_t i = 0; i < a.size(); i++) if (a[i].pgn == pgn && a[i].src == src) return (int)i; return -1; }
+  int oldest() { int o = 0; for (size_t i = 1; i < a.size(); i++) if (a[i].t < a[o].t) o = (int)i; return o; }
+  // a single-frame / TP session needs a slot for a moment
+  std::string need() {
+    if (a.size() < 5) return "";
+    int o = oldest(); if (g_now - a[o].t >= 100) { a.erase(a.begin() + o); return ":rx-slots-stale"; }
+    return ":rx-slots-busy";
+  }
+  void firstFrame(unsigned long pgn, unsigned src, unsigned len, unsigned char b0) {
+    E e{pgn, src, g_now, len, 6, b0};
+    int i = find(pgn, src);
+    if (i >= 0) { if (len > 6) a[i] = e; else a.erase(a.begin() + i); return; }
+    if (a.size() >= 5) { int o = oldest(); if (g_now - a[o].t >= 100) a.erase(a.begin() + o); else return; }
+    if (len > 6) a.push_back(e);
+  }
+  void contFrame(unsigned long pgn, unsigned src, unsigned char b0) {
+    int i = find(pgn, src); if (i < 0) return;
+    if ((unsigned char)(a[i].last + 1) != b0) { a.erase(a.begin() + i); return; }
+    a[i].last = b0; a[i].got += 7; if (a[i].got >= a[i].len) a.erase(a.begin() + i);
+  }
+};
+static SlotBook Slots;
+static const unsigned long FP_PGNS[] = {129029UL, 129540UL, 130577UL, 127489UL, 130816UL, 126464UL};
+static unsigned long rxPGN(unsigned long id) { unsigned long pf = (id >> 16) & 0xff, ps = (id >> 8) & 0xff, dp = (id >> 24) & 1; return pf < 240 ? (dp << 16) | (pf << 8) : (dp << 16) | (pf << 8) | ps; }
+static bool isFpPGN(unsigned long pgn) { for (unsigned long p : FP_PGNS) if (p == pgn) return true; return false; }
 
 // run the real library on node b; returns the claim frames it sent
-static std::vector<Frame> libAct(size_t idx, const std::vector<Frame> &rx, const Stim &st) {
+static std::vector<Frame> libAct(size_t idx, const std::vector<Frame> &rx, Stim &st) {
   BusNode &b = B[idx]; Node &N = *b.n;
   int nd = b.ndev; bool claimant = b.mode == 1 || b.mode == 2;
   std::vector<unsigned> a0(nd); std::vector<uint64_t> n0(nd); std::vector<bool> tm0(nd);
@@ -122,10 +165,12 @@ static std::vector<Frame> libAct(size_t idx, const std::vector<Frame> &rx, const
   bool wasOpen = N.isOpen();
   N.sent.clear(); N.atSend.clear();
   if (st.k == OP_RESTART) N.Restart();
+  else if (st.k == OP_SEND) st.ret = N.SendMsg(*st.msg, st.sdev);
   else {
     if (N.openedAt >= 0) for (auto &f : rx) N.rx(f.id, f.len, f.buf);   // a controller that was not opened receives nothing
     N.ParseMessages();
   }
+  st.all = N.sent;
   std::vector<Frame> claims, others;
   // (a) frames carry the address the library reports when it sends them
   for (size_t k = 0; k < N.sent.size(); k++) {
@@ -136,8 +181,9 @@ static std::vector<Frame> libAct(size_t idx, const std::vector<Frame> &rx, const
       if (!ok) C.fail("C03:claim-from-unreported-address", "node %zu sent %s, which is no (NAME, GetN2kSource) pair of it at that moment", idx, frameStr(f).c_str());
     } else {
       others.push_back(f);
-      for (auto &p : N.atSend[k]) if (p.second == s && s <= 251) ok = true;
-      if (!ok) C.fail("C03:data-from-unreported-address", "node %zu sent %s from an address GetN2kSource does not report", idx, frameStr(f).c_str());
+      for (auto &p : N.atSend[k]) if (p.second == s) ok = true;
+      if (s > 251) C.fail("C03:data-from-null-address", "node %zu sent %s: only address claims may leave from an address above 251", idx, frameStr(f).c_str());
+      else if (!ok) C.fail("C03:data-from-unreported-address", "node %zu sent %s from an address GetN2kSource does not report", idx, frameStr(f).c_str());
       C.count("non_claim_frames_checked");
     }
   }
@@ -149,18 +195,20 @@ static std::vector<Frame> libAct(size_t idx, const std::vector<Frame> &rx, const
   if (changed) { b.pendingChange = true; C.count("own_address_changes"); }
   auto sentClaim = [&](uint64_t nm, unsigned a) { for (auto &f : claims) { uint64_t n2; unsigned a2; if (decodeClaim(f, n2, a2) && n2 == nm && a2 == a) return true; } return false; };
   auto siblingHolds = [&](const std::vector<unsigned> &av, int me, unsigned a) { for (int j = 0; j < nd; j++) if (j != me && av[j] == a) return true; return false; };
+  bool slotOk = st.slotClass != ":rx-slots-busy";     // hypothesis of C03_claim_not_lost: a receive slot is free or recyclable
+  if (!slotOk && (st.isClaim || st.k == OP_CMD)) C.count("rx_slots_busy_not_judged");
   // (b) arbitration: a claim for an address one of our devices holds
-  if (st.isClaim && wasOpen && claimant && st.a <= 251) {
+  if (st.isClaim && wasOpen && claimant && st.a <= 251 && slotOk) {
     int holders = 0; for (int i = 0; i < nd; i++) if (a0[i] == st.a) holders++;
     for (int i = 0; i < nd && holders == 1; i++) if (a0[i] == st.a) {
       caseContest = true;
       if (n0[i] < st.nm) {
         C.count("arbitration_won");
         if (a1[i] != st.a) C.fail("C03:lower-name-lost", "device %d NAME %llx held %u against %llx and moved to %u", i, (unsigned long long)n0[i], st.a, (unsigned long long)st.nm, a1[i]);
-        else if (!sentClaim(n1[i], st.a)) C.fail("C03:no-reclaim", "device %d kept %u against %llx without claiming it again", i, st.a, (unsigned long long)st.nm);
+        else if (!sentClaim(n1[i], st.a)) C.fail("C03:no-reclaim" + st.slotClass, "device %d kept %u against %llx without claiming it again", i, st.a, (unsigned long long)st.nm);
       } else if (n0[i] > st.nm) {
         C.count("arbitration_lost");
-        if (a1[i] == st.a) C.fail("C03:higher-name-kept", "device %d NAME %llx kept %u against lower NAME %llx", i, (unsigned long long)n0[i], st.a, (unsigned long long)st.nm);
+        if (a1[i] == st.a) C.fail("C03:higher-name-kept" + st.slotClass, "device %d NAME %llx kept %u against lower NAME %llx", i, (unsigned long long)n0[i], st.a, (unsigned long long)st.nm);
         else {
           if (!(a1[i] <= 251 || a1[i] == 254) || (a1[i] <= 251 && siblingHolds(a1, i, a1[i])))
             C.fail("C03:bad-next-address", "device %d moved from %u to %u (siblings %s)", i, st.a, a1[i], addrsOf(b).c_str());
@@ -177,12 +225,12 @@ static std::vector<Frame> libAct(size_t idx, const std::vector<Frame> &rx, const
       C.fail(st.k == OP_CMD ? "C03:commanded-onto-sibling" : "C03:sibling-duplicate", "devices %d and %d of node %zu both at %u", i, j, idx, a1[i]);
     }
   // (d) commanded address naming one of our NAMEs, free address: taken, claimed
-  if (st.k == OP_CMD && wasOpen && claimant && st.a <= 251) {
+  if (st.k == OP_CMD && wasOpen && claimant && st.a <= 251 && slotOk) {
     for (int i = 0; i < nd; i++) if (n0[i] == st.nm && (st.dst == 255 || (st.dst == a0[i] && !siblingHolds(a0, i, st.dst))) && a0[i] != st.a && !siblingHolds(a0, i, st.a)) {
       int same = 0; for (int j = 0; j < nd; j++) if (n0[j] == st.nm) same++;
       if (same != 1) continue;
       C.count("commanded_address_taken");
-      if (a1[i] != st.a) C.fail("C03:commanded-not-taken", "device %d NAME %llx commanded to %u is at %u", i, (unsigned long long)st.nm, st.a, a1[i]);
+      if (a1[i] != st.a) C.fail("C03:commanded-not-taken" + st.slotClass, "device %d NAME %llx commanded to %u is at %u", i, (unsigned long long)st.nm, st.a, a1[i]);
       else if (!sentClaim(n1[i], st.a)) C.fail("C03:no-claim-after-move", "device %d commanded to %u did not claim it", i, st.a);
     }
   }
@@ -286,6 +334,7 @@ static void exec(const std::string &line0) {
       }
     } else ok = false;
     if (!ok) { B.clear(); C.out("bad-op"); return; }
+    Slots.clear();
     for (auto &v : everHeld) v.assign(16 * B.size(), false);
     noteHeld();
     C.out("ok"); return;
@@ -295,28 +344,43 @@ static void exec(const std::string &line0) {
   auto nodeArg = [&](size_t k) -> long { if (w.size() <= k) return -1; long i = atol(w[k].c_str()); return (i >= 0 && (size_t)i < B.size()) ? i : -1; };
   if (w[0] == "t" && w.size() == 2) { g_now += strtoull(w[1].c_str(), 0, 10); C.out("ok"); return; }
   // ---------------------------------------------------------------- level 1
-  if (w[0] == "poll" || w[0] == "claim" || w[0] == "rxc" || w[0] == "cmdaddr" || w[0] == "restart") {
+  if (w[0] == "poll" || w[0] == "claim" || w[0] == "rxc" || w[0] == "cmdaddr" || w[0] == "restart" || w[0] == "send") {
     BusNode &b = B[0]; if (!b.lib) { C.out("bad-op"); return; }
-    std::vector<Frame> rx; Stim st;
+    std::vector<Frame> rx; Stim st; SlotBook after = Slots; tN2kMsg m;
     if (w[0] == "claim" && w.size() == 3) {
       st.k = OP_CLAIM; st.isClaim = true; st.a = (unsigned)strtoul(w[1].c_str(), 0, 10); st.nm = strtoull(w[2].c_str(), 0, 16);
       if (st.a > 255) { C.out("bad-op"); return; }
-      rx.push_back(mkClaim(st.nm, st.a));
+      rx.push_back(mkClaim(st.nm, st.a)); st.slotClass = after.need();
     } else if (w[0] == "rxc" && w.size() == 4) {
       st.k = OP_RAW; std::vector<unsigned char> d = unhex(w[3]); d.resize(8, 0);
-      Frame f = mkFrame(strtoul(w[1].c_str(), 0, 16), (unsigned)strtoul(w[2].c_str(), 0, 10), d.data());
+      unsigned len = (unsigned)strtoul(w[2].c_str(), 0, 10); if (len > 8) { C.out("bad-op"); return; }
+      Frame f = mkFrame(strtoul(w[1].c_str(), 0, 16), len, d.data());
       st.isClaim = decodeClaim(f, st.nm, st.a);
+      unsigned long pgn = rxPGN(f.id); unsigned src = (unsigned)(f.id & 0xff);
+      if (isFpPGN(pgn)) { if ((f.buf[0] & 0x1f) == 0) after.firstFrame(pgn, src, len >= 2 ? f.buf[1] : 0xAA, f.buf[0]); else after.contFrame(pgn, src, f.buf[0]); }
+      else st.slotClass = after.need();
       rx.push_back(f);
     } else if (w[0] == "cmdaddr" && w.size() == 4) {
       st.k = OP_CMD; st.nm = strtoull(w[1].c_str(), 0, 16); st.a = (unsigned)strtoul(w[2].c_str(), 0, 10); st.dst = (unsigned)strtoul(w[3].c_str(), 0, 10);
       if (st.a > 255 || st.dst > 255) { C.out("bad-op"); return; }
-      rx = mkCommanded(st.nm, st.a, st.dst);
+      rx = mkCommanded(st.nm, st.a, st.dst); st.slotClass = after.need();
+    } else if (w[0] == "send" && w.size() == 8) {
+      // send <dev|-1> <prio> <pgn> <preset source> <dst> <len> <hexdata>: the application's SendMsg; the Source field is what the caller left in the message
+      st.k = OP_SEND; st.sdev = atoi(w[1].c_str()); std::vector<unsigned char> d = unhex(w[7]); int len = atoi(w[6].c_str());
+      if (len < 0 || len > 223 || (int)d.size() < len) { C.out("bad-op"); return; }
+      memset(m.Data, 0x55, sizeof m.Data);
+      m.Priority = (unsigned char)strtoul(w[2].c_str(), 0, 10); m.PGN = strtoul(w[3].c_str(), 0, 10); m.Source = (unsigned char)strtoul(w[4].c_str(), 0, 10);
+      m.Destination = (unsigned char)strtoul(w[5].c_str(), 0, 10); m.DataLen = len; if (!d.empty()) memcpy(m.Data, d.data(), d.size() > 223 ? 223 : d.size());
+      st.msg = &m;
     } else if (w[0] == "restart" && w.size() == 1) st.k = OP_RESTART;
     else if (w[0] == "poll" && w.size() == 1) st.k = OP_POLL;
     else { C.out("bad-op"); return; }
     std::vector<Frame> out = libAct(0, rx, st);
+    if (b.n->isOpen() && !rx.empty()) Slots = after;      // the frames were read in this call
     b.inbox.clear();
-    actOut(0, out); noteHeld(); return;
+    if (st.k == OP_SEND) { broadcast(0, out); C.outs(std::string(st.ret ? "1 " : "0 ") + framesStr(st.all) + " | " + addrsOf(b) + " | " + inboxLens()); }
+    else actOut(0, out);
+    noteHeld(); return;
   }
   // ---------------------------------------------------------------- level 2
   if (w[0] == "d" || w[0] == "p" || w[0] == "cmd" || w[0] == "rs") {
@@ -397,6 +461,66 @@ static unsigned pickAddr(Rng &R, int window) {
 }
 
 // ------------------------------------------------------------------------------------------------ level 1
+// an application send: the Source field of the message is NOT the device address (default-constructed tN2kMsg has 15)
+static void genSend(Rng &R, int nd) {
+  Node &N = *B[0].n;
+  static const unsigned long pg[] = {127488UL, 127250UL, 130306UL, 127488UL, 129029UL, 126993UL, 59904UL, 127488UL};
+  unsigned long pgn = pg[R.below(sizeof pg / sizeof *pg)];
+  int d = R.chance(1, 20) ? nd : (int)R.below(nd);    // (device index -1 keeps the caller's source by documented design: not a claimant's frame, see C01)
+  unsigned src; switch (R.below(5)) { case 0: src = 254; break; case 1: src = N.src((int)R.below(nd)); break; case 2: src = (unsigned)R.below(256); break; default: src = 15; }
+  int len = pgn == 129029UL ? (int)R.range(9, 43) : (pgn == 59904UL ? 3 : 8);
+  std::vector<unsigned char> data(len); for (auto &x : data) x = (unsigned char)R.below(256);
+  char hd[96]; snprintf(hd, sizeof hd, "send %d %u %lu %u %u %d ", d, (unsigned)R.range(2, 6), pgn, src, pgn == 59904UL ? (unsigned)R.below(256) : 255u, len);
+  exec(std::string(hd) + hex(data.data(), data.size()));
+}
+
+// first frame of a fast-packet message from `src` announcing `total` bytes (the rest may never arrive)
+static void genFpFirst(Rng &R, unsigned src, unsigned long pgn, unsigned total, unsigned seq) {
+  unsigned char d[8]; d[0] = (unsigned char)(seq << 5); d[1] = (unsigned char)total; for (int i = 2; i < 8; i++) d[i] = (unsigned char)R.below(256);
+  unsigned long id = (3UL << 26) | (pgn << 8) | src;
+  exec("rxc " + hx(id) + " 8 " + hex(d, 8));
+}
+static void genFpCont(Rng &R, unsigned src, unsigned long pgn, unsigned seq, unsigned k) {
+  unsigned char d[8]; d[0] = (unsigned char)((seq << 5) | k); for (int i = 1; i < 8; i++) d[i] = (unsigned char)R.below(256);
+  exec("rxc " + hx((3UL << 26) | (pgn << 8) | src) + " 8 " + hex(d, 8));
+}
+
+// claim contention while other talkers keep the receive slots busy with unfinished fast-packet messages;
+// in half of the cases the 32-bit millisecond clock wraps between those messages and the claim
+static void level1Pressure(Rng &R) {
+  int nd = R.chance(2, 3) ? 1 : 2; unsigned a0 = pickAddr(R, (int)R.below(5));
+  uint64_t origin = nextOrigin(R);
+  bool wrapCase = R.chance(1, 2);
+  if (wrapCase) origin = (origin & ~0xFFFFFFFFULL) | (0x100000000ULL - 470 - R.below(2600));
+  std::string l = std::string("reset ") + FLAVOR + " " + std::to_string(R.chance(1, 2) ? 1 : 2) + " " + std::to_string(origin);
+  std::vector<uint64_t> names; for (int i = 0; i < nd; i++) { names.push_back(mkName(R, 10 + i)); l += " " + std::to_string((a0 + 2 * i) % 252) + ":" + hx(names[i]); }
+  exec(l); exec("t 1"); exec("poll"); exec("t 201"); exec("poll"); exec("t 251"); exec("poll"); exec("changed");
+  Node &N = *B[0].n;
+  static const unsigned long fps[] = {129029UL, 129540UL, 130577UL, 127489UL, 130816UL};
+  static const int waits[] = {0, 1, 50, 98, 99, 100, 101, 150, 400, 2500, 2500, 5000};
+  int rounds = (int)R.range(1, 3);
+  for (int r = 0; r < rounds; r++) {
+    int k = (int)R.range(3, 7); unsigned base = 40 + 10 * r;
+    for (int i = 0; i < k; i++) {
+      genFpFirst(R, base + i, fps[R.below(5)], (unsigned)R.range(20, 60), (unsigned)R.below(8));
+      if (R.chance(1, 3)) exec("t " + std::to_string(R.range(1, 4)));
+    }
+    if (R.chance(1, 4)) { genFpFirst(R, base + 9, 129029UL, 10, 1); genFpCont(R, base + 9, 129029UL, 1, 1); }   // one that completes
+    int w = waits[R.below(sizeof waits / sizeof *waits)];
+    if (w >= 400 && R.chance(1, 2)) { for (int t = 0; t < w; t += 50) { exec("t 50"); exec("poll"); } } else if (w) exec("t " + std::to_string(w));
+    int d = (int)R.below(nd);
+    for (int rep = 0; rep < 2; rep++) {
+      if (R.chance(1, 5)) exec("cmdaddr " + hx(N.name(d)) + " " + std::to_string((N.src(d) + 7) % 252) + " 255");
+      else exec("claim " + std::to_string(N.src(d)) + " " + hx(R.chance(2, 3) ? N.name(d) - 1 - R.below(3) : N.name(d) + 1 + R.below(3)));
+      exec("changed");
+      if (rep == 0) { if (R.chance(1, 2)) { exec("t 1000"); exec("poll"); } else exec("t " + std::to_string(R.range(0, 120))); }
+    }
+    if (R.chance(1, 2)) genSend(R, nd);
+    exec("get");
+  }
+  C.count("pressure_cases"); if (wrapCase) C.count("pressure_cases_across_wrap");
+}
+
 static void level1Case(Rng &R) {
   int nd = R.chance(1, 3) ? 1 : (int)R.range(1, 9);
   int mode = R.chance(1, 10) ? (int)R.below(5) : (R.chance(1, 2) ? 1 : 2);
@@ -437,7 +561,8 @@ static void level1Case(Rng &R) {
       unsigned dst = R.chance(1, 2) ? 255 : (R.chance(3, 4) ? N.src(R.chance(3, 4) ? d : (int)R.below(nd)) : (unsigned)R.below(256));
       exec("cmdaddr " + hx(nm) + " " + std::to_string(a) + " " + std::to_string(dst));
     } else if (r < 75) { static const int dts[] = {0, 1, 2, 50, 100, 249, 250, 251, 252, 300, 1000, 12000, 61000}; exec("t " + std::to_string(dts[R.below(R.chance(1, 8) ? 13 : 10)])); }
-    else if (r < 87) exec("poll");
+    else if (r < 83) exec("poll");
+    else if (r < 87) genSend(R, nd);
     else if (r < 90) exec("restart");
     else if (r < 95) exec("get");
     else exec("changed");
@@ -458,11 +583,15 @@ static void level1Exhaust(Rng &R) {
   for (int k = 0; k < 600 && N.src(d) != 254; k++) {
     exec("claim " + std::to_string(N.src(d)) + " " + hx(0x1000 + k));
     exec("changed");
+    if (k % 60 == 7) genSend(R, nd);
     if (expire && k == 100) { exec("t 251"); exec("poll"); exec("changed"); }     // a successful claim in between moves the end-of-search address
   }
   if (N.src(d) != 254) C.fail("harness:wall-not-exhausted", "device %d still at %u after 600 lost arbitrations", d, N.src(d));
   exec("get"); exec("changed"); exec("claim 254 1"); exec("changed"); exec("t 300"); exec("poll"); exec("changed");
-  exec("restart"); exec("changed"); exec("get");
+  // the device could not claim an address: the application keeps sending, heartbeats fall due - nothing but claims may leave from 254
+  for (int k = 0; k < 6; k++) genSend(R, nd);
+  exec("t 12000"); exec("poll"); genSend(R, nd); exec("t 61000"); exec("poll"); exec("poll"); genSend(R, nd); exec("changed");
+  exec("restart"); exec("changed"); exec("get"); genSend(R, nd); exec("t 251"); exec("poll"); genSend(R, nd);
   C.count("exhaust_cases");
 }
 
@@ -614,6 +743,7 @@ int main(int argc, char **argv) {
   int n1 = C.thorough ? 1200 : 150;
   for (int i = 0; i < n1; i++) level1Case(R);
   for (int i = 0; i < (C.thorough ? 12 : 2); i++) level1Exhaust(R);
+  for (int i = 0; i < (C.thorough ? 600 : 80); i++) level1Pressure(R);
   C.sample("level 1: reset + claim/rxc/cmdaddr/t/poll/restart on one real instance (1..9 devices), compared line by line with the model");
   // (2) whole bus, all schedules of small configurations
   long cap = C.thorough ? 4000 : 120;
